@@ -1,4 +1,5 @@
 import GufoSnmp.Lemmas.Extent
+import GufoSnmp.Lemmas.PrivLemmas
 /-!
 # C16 — decoding an element reads exactly its declared extent
 
@@ -111,5 +112,65 @@ theorem pdu_trailing_response (x s : Bytes) (p : Pdu) (hs : s ≠ []) (h : getRe
     rw [if_pos (by cases s with
       | nil => exact absurd rfl hs
       | cons _ _ => rfl)]
+
+/-! ## encrypted payloads: the decoder reads the decrypted octets and nothing else -/
+
+/-- **C16.decrypt_extent** (DES): whatever the cipher object's private buffer held before (older
+requests, older replies), a successful decrypt parsed exactly the CBC-decrypted octets of this
+message: a declared length that runs past them cannot be satisfied from stale buffer contents -/
+theorem decrypt_extent_des (C : Ciphers) (hC : C.WF) (key preIv : Bytes) (salt : Nat) (buf : Buf) (data : Bytes)
+    (usm : Usm) (s : ScopedPdu) (k' : PrivKey)
+    (h : (PrivKey.des key preIv salt buf).decrypt C data usm = .ok (s, k')) :
+    scopedTryFrom (cbcDec (C.desDec key)
+      ((xorBytes (usm.privacyParams.take 8) preIv ++ List.replicate 8 0).take 8) data) = .ok s := by
+  unfold PrivKey.decrypt at h
+  simp only at h
+  split at h
+  · cases h
+  · rename_i hcond
+    simp only [Bool.or_eq_true, decide_eq_true_eq, not_or, Nat.not_lt, ne_eq, Decidable.not_not] at hcond
+    obtain ⟨hm, hlen⟩ := hcond
+    have hsk : ((buf.reset).skip data.length).cells.length = data.length := by
+      have : ((buf.reset).skip data.length).len ≤ data.length := by
+        simp [Buf.len, Buf.skip, Buf.reset, Buf.pos]; omega
+      simp only [Buf.len] at hlen this; omega
+    have hiv : ((xorBytes (usm.privacyParams.take 8) preIv ++ List.replicate 8 0).take 8).length = 8 := by
+      simp [List.length_take]
+    have hpt := cbcDec_length C hC key _ data hiv hm
+    rw [overwrite_data _ _ (by rw [hpt, hsk])] at h
+    simp only [bind_ok] at h
+    obtain ⟨s', hs, h2⟩ := bind_eq_ok h
+    cases h2
+    exact hs
+
+/-- the same for AES-128-CFB -/
+theorem decrypt_extent_aes (C : Ciphers) (hC : C.WF) (key : Bytes) (salt : Nat) (buf : Buf) (data : Bytes)
+    (usm : Usm) (s : ScopedPdu) (k' : PrivKey)
+    (h : (PrivKey.aes key salt buf).decrypt C data usm = .ok (s, k')) :
+    scopedTryFrom (cfbDec (C.aesEnc key)
+      (beBytes 4 (asU32 usm.engineBoots) ++ beBytes 4 (asU32 usm.engineTime) ++ usm.privacyParams) data) = .ok s := by
+  unfold PrivKey.decrypt at h
+  simp only at h
+  split at h
+  · cases h
+  · split at h
+    · cases h
+    · rename_i hlen
+      simp only [ne_eq, Decidable.not_not] at hlen
+      have hpt := cfbDec_length C hC key
+        (beBytes 4 (asU32 usm.engineBoots) ++ beBytes 4 (asU32 usm.engineTime) ++ usm.privacyParams) data
+      rw [overwrite_data _ _ (by rw [hpt]; simp only [Buf.len] at hlen; exact hlen.symm)] at h
+      simp only [bind_ok] at h
+      obtain ⟨s', hs, h2⟩ := bind_eq_ok h
+      cases h2
+      exact hs
+
+/-- and the outcome does not depend on the private buffer's earlier contents at all: the whole decrypt
+step (result and new key state) is the same whatever cells the buffer held -/
+theorem decrypt_history_free (C : Ciphers) (key preIv : Bytes) (salt : Nat) (c1 c2 : List (Option UInt8)) (bm : Nat)
+    (data : Bytes) (usm : Usm) :
+    (PrivKey.des key preIv salt ⟨c1, bm⟩).decrypt C data usm = (PrivKey.des key preIv salt ⟨c2, bm⟩).decrypt C data usm ∧
+    (PrivKey.aes key salt ⟨c1, bm⟩).decrypt C data usm = (PrivKey.aes key salt ⟨c2, bm⟩).decrypt C data usm := by
+  constructor <;> rfl
 
 end GufoSnmp.C16
